@@ -23,6 +23,10 @@ Record case := Case {
   c_tdts : text_exports;           (* from the declaration file text *)
   c_tjsL : text_exports;           (* from the loader's JS text (the loader's own print_js) *)
   c_cli : option text_exports;     (* from the file the real `nitrogql-cli generate` wrote, when the case was also run end to end *)
+  c_emit : option (bool * text_exports);
+    (* when the case also went through the loader's real ABI (load_config, initiate_task, get_required_files,
+       load_file, emit_js): whether the returned text is byte-identical to print_js on the document resolved in
+       process, and the export lines of the returned text *)
   c_node : option (option (list str))
     (* when node really imported the loader's module: None = it failed to load (SyntaxError),
        Some keys = Object.keys of the module namespace *)
@@ -69,6 +73,12 @@ Definition agree (c : case) : bool :=
   && doc_eqb (loader_view d) (c_docL c)
   && Nat.eqb (length (c_B c)) (length (defs d))
   && bodies_ok (c_B c)
+  (* the loader's real emit_js returns what print_js gives on the document as the model sees it *)
+  && match c_emit c with
+     | None => true
+     | Some (same, t) =>
+         same && (if c_text_safe c then text_agrees (js_of_config (c_cfg c) (loader_view d) (c_B c)) t else true)
+     end
   (* the model's runtime reading against a real JS engine *)
   && (let mjL := scan (js_of_config (c_cfg c) (loader_view d) (c_B c)) in
       match c_node c with
@@ -149,6 +159,15 @@ Definition holds (c : case) : bool :=
         subset_str (fst (c_tdts c)) (fst (c_tjsL c)) && list_eqb str_eqb (snd (c_tdts c)) (snd (c_tjsL c))
         && match c_cli c with
            | Some t => subset_str (fst t) (fst (c_tjsL c)) && list_eqb str_eqb (snd t) (snd (c_tjsL c))
+           | None => true
+           end
+        && match c_emit c with
+           | Some (_, t) =>
+               subset_str (fst (c_tdts c)) (fst t) && list_eqb str_eqb (snd (c_tdts c)) (snd t)
+               && match c_cli c with
+                  | Some tc => subset_str (fst tc) (fst t) && list_eqb str_eqb (snd tc) (snd t)
+                  | None => true
+                  end
            | None => true
            end
       else true).
